@@ -240,6 +240,7 @@ macro_rules! native_harness {
         #[kani::stub(crate::root_compilation_scope::RootCompilationScope::add_func, crate::verif_common::capture_add_func)]
         #[kani::stub(crate::root_compilation_scope::RootCompilationScope::generics_from_names, crate::verif_common::stub_generics_from_names)]
         #[kani::stub(crate::xexpr::XStaticFunction::to_function, crate::verif_common::trip_to_function)]
+        #[kani::stub(crate::runtime_scope::RuntimeScope::from_template, crate::verif_common::trip_from_template)]
         #[kani::stub(crate::runtime_scope::RuntimeScope::eval, crate::verif_common::mini_eval)]
         #[kani::stub(std::rc::Rc::drop_slow, crate::verif_common::leak_rc)]
         #[kani::stub(std::sync::Arc::drop_slow, crate::verif_common::leak_arc)]
@@ -311,6 +312,7 @@ macro_rules! native_harness_rec {
         #[kani::stub(crate::root_compilation_scope::RootCompilationScope::add_func, crate::verif_common::capture_add_func)]
         #[kani::stub(crate::root_compilation_scope::RootCompilationScope::generics_from_names, crate::verif_common::stub_generics_from_names)]
         #[kani::stub(crate::xexpr::XStaticFunction::to_function, crate::verif_common::trip_to_function)]
+        #[kani::stub(crate::runtime_scope::RuntimeScope::from_template, crate::verif_common::trip_from_template)]
         #[kani::stub(crate::runtime_scope::RuntimeScope::eval, crate::verif_common::rec_eval)]
         #[kani::stub(std::rc::Rc::drop_slow, crate::verif_common::leak_rc)]
         #[kani::stub(std::sync::Arc::drop_slow, crate::verif_common::leak_arc)]
@@ -325,4 +327,53 @@ pub(crate) fn outcome_tag<W, R, T>(r: &crate::root_runtime_scope::RuntimeResult<
         Ok(TailedEvalResult::Value(v)) => Some(tag_of_value(v)),
         _ => None,
     }
+}
+
+// ---- scripted callee: a native predicate/mapper whose k-th call yields the k-th scripted outcome -------------------
+pub(crate) static mut CALLEE_SCRIPT: [u8; 8] = [0; 8]; // 0 = false, 1 = true, 2 = error value "e3", 3 = violation
+pub(crate) static mut CALLEE_CALLS: usize = 0;
+pub(crate) static mut CALLEE_ARGS: [i64; 8] = [0; 8];
+pub(crate) fn scripted_predicate<W: 'static, R: 'static, T: 'static>(rt: &RTCell<W, R, T>) -> XExpr<W, R, T> {
+    let f = crate::xvalue::XFunction::Native(Rc::new(
+        |args: &[XExpr<W, R, T>], _ns: &RuntimeScope<'_, W, R, T>, _tca: bool, rt: RTCell<W, R, T>| {
+            let k = unsafe { CALLEE_CALLS };
+            unsafe {
+                if k < 8 {
+                    if let XExpr::Dummy(v) = &args[0] {
+                        CALLEE_ARGS[k] = tag_of_value(v);
+                    }
+                }
+                CALLEE_CALLS += 1;
+            }
+            match unsafe { CALLEE_SCRIPT[if k < 8 { k } else { 7 }] } {
+                0 => Ok(ManagedXValue::new(XValue::Bool(false), rt)?.into()),
+                1 => Ok(ManagedXValue::new(XValue::Bool(true), rt)?.into()),
+                2 => Ok(TailedEvalResult::Value(Err(ManagedXError::new("e3", rt)?))),
+                _ => Err(crate::runtime_violation::RuntimeViolation::MaximumUDCall),
+            }
+        },
+    ));
+    val(XValue::Function(f), rt)
+}
+pub(crate) fn set_script(s: [u8; 8]) {
+    unsafe { CALLEE_SCRIPT = s };
+}
+pub(crate) fn callee_log() -> (usize, [i64; 8]) {
+    unsafe { (CALLEE_CALLS, CALLEE_ARGS) }
+}
+pub(crate) fn trip_from_template<'a, W: 'static, R: 'static, T: 'static>(
+    _template: Rc<RuntimeScopeTemplate<W, R, T>>,
+    _stack_parent: Option<&'a RuntimeScope<'a, W, R, T>>,
+    _rt: RTCell<W, R, T>,
+    _args: Vec<crate::root_runtime_scope::EvaluatedValue<W, R, T>>,
+) -> crate::root_runtime_scope::RuntimeResult<Rc<RuntimeScope<'a, W, R, T>>>
+where
+    'a: 'a,
+{
+    panic!("tripwire: no user-function frame may be created in this harness (callees are natives)")
+}
+
+/// the random source must not be reached in harnesses where the permission is denied
+pub(crate) fn trip_get_rng<W, R: rand::SeedableRng, T>(_this: &mut crate::runtime::RuntimeStats<W, R, T>) -> &mut R {
+    panic!("tripwire: the random source was reached although `random` is denied")
 }
